@@ -485,6 +485,7 @@ type fetchScn struct {
 	Hdr     string `json:"hdr"`
 	HdrMT   string `json:"hdrmt"`
 	Via     string `json:"via"`
+	Form    string `json:"form"`
 }
 
 // body variants: same fields, different bytes
@@ -614,7 +615,7 @@ func runFetch(enc *json.Encoder, sc fetchScn, scratch string, n int) {
 	body := bodyVariant(sc.Kind, sc.Variant)
 	canon := canonical(sc.Kind, body)
 	ev := map[string]any{"ev": "fetch", "kind": sc.Kind, "variant": sc.Variant, "desc": sc.Desc, "ref": sc.Ref, "hdr": sc.Hdr,
-		"hdrmt": sc.HdrMT, "via": sc.Via, "served_sha256": h256(body), "served_sha512": h512(body),
+		"hdrmt": sc.HdrMT, "via": sc.Via, "form": sc.Form, "served_sha256": h256(body), "served_sha512": h512(body),
 		"servedp_sha256": h256(canon),
 		"canon_sha256":   h256(canon), "canon_sha512": h512(canon), "canon_len": len(canon), "raw_len": len(body), "body_mt": bodyMT(body),
 		"put_done": 0, "put_sha256": "", "put_digest": "", "rep_digest": "", "rep_size": 0, "rep_mt": "", "raw_sha256": "", "mj_sha256": ""}
@@ -637,9 +638,6 @@ func runFetch(enc *json.Encoder, sc fetchScn, scratch string, n int) {
 	switch sc.Via {
 	case "new":
 		opts := []manifest.Opts{manifest.WithRaw(body)}
-		if descDig != "" {
-			opts = append(opts, manifest.WithDesc(descriptor.Descriptor{Digest: digest.Digest(descDig)}))
-		}
 		rs := "registry.example/repo:tag"
 		if refDig != "" {
 			rs = "registry.example/repo@" + refDig
@@ -648,7 +646,30 @@ func runFetch(enc *json.Encoder, sc fetchScn, scratch string, n int) {
 		if rerr != nil {
 			fail(rerr)
 		}
-		opts = append(opts, manifest.WithRef(r))
+		// the descriptor: digest only (std, ref_first), or with media type and size - then also given
+		// when it carries no digest (mt_desc, mt_desc_first)
+		var descOpt manifest.Opts
+		switch sc.Form {
+		case "mt_desc", "mt_desc_first":
+			descOpt = manifest.WithDesc(descriptor.Descriptor{MediaType: kindMT(sc.Kind), Size: int64(len(body)), Digest: digest.Digest(descDig)})
+		default:
+			if descDig != "" {
+				descOpt = manifest.WithDesc(descriptor.Descriptor{Digest: digest.Digest(descDig)})
+			}
+		}
+		refOpt := manifest.WithRef(r)
+		switch sc.Form {
+		case "ref_first", "mt_desc":
+			opts = append(opts, refOpt)
+			if descOpt != nil {
+				opts = append(opts, descOpt)
+			}
+		default:
+			if descOpt != nil {
+				opts = append(opts, descOpt)
+			}
+			opts = append(opts, refOpt)
+		}
 		if hdrDig != "" || hdrMT != "" {
 			h := http.Header{}
 			if hdrDig != "" {
